@@ -390,9 +390,9 @@ def run_consume(ctx, params):
       for w in pick:
         for f in slots[:5]:
           check_consume(ctx, mode, [(f, w)])
-    # channel-2 codes followed by a line of bare text (the text is channel-2 text)
+    # channel-2 / field-2 codes followed by a line of bare text (the text continues the other channel's / field's data)
     for key, vs in sorted(fw.items(), key=lambda kv: repr(kv[0])):
-      if key[1] == 2:
+      if key[1] == 2 or key[2] == 2:          # ... and field-2 codes: what follows them is field-2 data
         for w in (vs if key[0] == "control" else [vs[0], vs[len(vs) // 2], vs[-1]]):
           for f in slots[:5]:
             check_consume(ctx, mode, [(f, w)], trail=True)
